@@ -584,4 +584,35 @@ def extra_histories(rep):
         check(m, "the source after its copy() was changed", {"kind": "extra", "case": "copy", "build": build})
         if m.session_id_avp.data != b"s;1;2" or not m.has_avp("origin_host_avp"):
             rep.violation("a change made to a copy() reached the source message", {"kind": "extra", "case": "copy", "build": build})
+    # (d) a bulk operation that is refused part-way (an element that is not an AVP, not the first one): whatever the operation
+    # leaves behind, the three views agree, and they still agree after the caller carries on
+    for op in ("extend", "avps"):
+        for pos in (1, 2):
+            for junk in ("junk", None, 5):
+                for pre in (0, 2):
+                    m = DiameterRequest(command_code=272, application_id=4)
+                    m.extend([SessionIdAVP(b"s;1;2"), OriginHostAVP("a.b")][:pre])
+                    items = [UserNameAVP("u"), UserNameAVP("vv"), RouteRecordAVP("r.example")][:pos] + [junk] + [ProxyStateAVP(b"p")]
+                    replay = {"kind": "extra", "case": "refused-bulk", "op": op, "pos": pos, "junk": repr(junk), "pre": pre}
+                    try:
+                        if op == "extend":
+                            m.extend(items)
+                        else:
+                            m.avps = items
+                        rep.violation(f"{op} with an element that is not an AVP ({junk!r}) was accepted", replay)
+                        continue
+                    except BaseException as e:
+                        if type(e).__module__ != "bromelia.exceptions":
+                            rep.violation(f"{op} with an element that is not an AVP ({junk!r}) raised {type(e).__name__}: {e}", replay)
+                            continue
+                    check(m, f"{op}() refused at element {pos + 1} of {len(items)} ({junk!r})", replay)
+                    try:
+                        m.append(UserNameAVP("later"))
+                        check(m, f"append after {op}() was refused at element {pos + 1}", replay)
+                        names = [k for k in vars(m) if "_avp" in k and k != "_avps"]
+                        if names:
+                            m.pop(names[0])
+                            check(m, f"append and pop after {op}() was refused at element {pos + 1}", replay)
+                    except BaseException as e:
+                        rep.violation(f"append / pop after a refused {op}() raised {type(e).__name__}: {e}", replay)
     rep.notes["extra_histories"] = n
